@@ -1,6 +1,6 @@
 /-
-Lemmas/NoIntHuge.lean — C13: a program of 70002 lines without INCLUDE on which `Program.process` ends in an
-internal error.  The program is `n` times ` ORG 0`, then `FAR LEAX X-FAR,PCR`, then `X EQU 1,2`.  It cannot be
+Lemmas/NoIntHuge.lean — C13: a program of 70002 lines without INCLUDE on which `Program.process` USED TO end in
+an internal error and now ends in a diagnostic (`huge_diag`).  The program is `n` times ` ORG 0`, then `FAR LEAX X-FAR,PCR`, then `X EQU 1,2`.  It cannot be
 evaluated as a whole inside the kernel; the `n` identical statements are carried through every stage by
 induction, the two last statements are evaluated.
 -/
@@ -154,33 +154,26 @@ def selfMinus (k : Nat) (v : Value) : Bool :=
   | .expr l (.address i _) '-' _ true => i == k && !l.isAddress && !l.isNumeric
   | _ => false
 
-/-- `calculate_address_offset` on `X - FAR`: the STATEMENT INDEX `k` of `FAR` is taken for the constant, and the
-result is `address(FAR) − k` -/
-theorem addrOffset_selfMinus {ss : List Stmt} {k a : Nat} {v : Value} (hv : selfMinus k v = true)
-    (ha : addrIntOf ss k = some a) :
-    addrOffset ss v = (match numericOfInt ((a : Int) - k) (some 4) .extended with
-      | .ok nv => .ok nv | .error _ => .diag) := by
+/-- `calculate_address_offset` on `X - FAR` with `X` neither a number nor a label: "unresolved expression"
+(since the repair; before, the STATEMENT INDEX `k` of `FAR` was taken for the constant and the result was
+`address(FAR) − k`) -/
+theorem addrOffset_selfMinus {ss : List Stmt} {k : Nat} {v : Value} (hv : selfMinus k v = true) :
+    addrOffset ss v = .diag := by
   unfold selfMinus at hv
   split at hv
   · rename_i l i m md
     simp only [Bool.and_eq_true, beq_iff_eq, Bool.not_eq_true'] at hv
     obtain ⟨⟨rfl, h1⟩, h2⟩ := hv
-    unfold addrOffset
-    simp only [h1, h2, Bool.false_eq_true, if_false]
-    have e : (Value.address i m).int? = some i := rfl
-    simp only [e, ha, show ('-' == '+') = false from by decide, show ('-' == '-') = true from by decide,
-      Bool.false_eq_true, if_false, if_true]
-    cases numericOfInt ((a : Int) - i) (some 4) .extended <;> rfl
+    rw [addrOffset_expr]
+    simp only [h1, Bool.false_eq_true, if_false]
+    rw [addrOther_other ss l h1 h2]
   · cases hv
 
-/-- **the internal error**: a PCR statement of index `k` (8-bit form chosen, own address `a`, size `sz`) whose
-offset expression is `X - itself`: the "target" is `|a − k|`, and `NumericValue(k − a − a − sz, size_hint=2)`
-raises as soon as that exceeds 65535 -/
-theorem fixOne_selfMinus_internal {ss : List Stmt} {k a : Nat} {s : Stmt}
+/-- **the former internal error, now a diagnostic**: a PCR statement of index `k` whose offset expression is
+`X - itself` with `X` neither a number nor a label -/
+theorem fixOne_selfMinus_diag {ss : List Stmt} {k : Nat} {s : Stmt}
     (hk : s.operand.kind = .indexed) (hlr : s.operand.value.isLeftRight = true)
-    (hn : s.pkg.needsRes = true) (hadd : selfMinus k s.pkg.additional = true)
-    (ha : addrIntOf ss k = some a) (hhint : s.pcrHint = 2) (hak : a ≤ k)
-    (hbig : 65535 + a + a + s.pkg.size < k) : fixOne ss k s = .internal := by
+    (hn : s.pkg.needsRes = true) (hadd : selfMinus k s.pkg.additional = true) : fixOne ss k s = .diag := by
   have hk' : (s.operand.kind == .relative) = false := by rw [hk]; rfl
   have hv : s.operand.value ≠ .pyNone := by
     intro h; rw [h] at hlr; cases hlr
@@ -193,15 +186,10 @@ theorem fixOne_selfMinus_internal {ss : List Stmt} {k a : Nat} {s : Stmt}
     cases hval : s.operand.value <;> rw [hval] at hlr <;> simp [Value.isLeftRight] at hlr
     simp [Value.isAddress]
   rw [fixOne_nonrel ss k s hk' hv, h1]
-  show (fixStep2 ss s.operand.value s).bind (fixStep3 ss k) = .internal
+  show (fixStep2 ss s.operand.value s).bind (fixStep3 ss k) = .diag
   rw [h2]
-  show fixStep3 ss k s = .internal
-  have hz : numericOfInt ((a : Int) - k) (some 4) .extended = .ok (.numeric (k - a) (some 4) .extended (decide ((a : Int) - k < 0))) := by
-    unfold numericOfInt
-    have h1 : ¬ ((a : Int) - k > 65535) := by omega
-    have h3 : ((a : Int) - k).natAbs = k - a := by omega
-    simp [h1, h3, postInit, initHint]
-  have hrel : fixRel ss s = .ok (k - a) := by
+  show fixStep3 ss k s = .diag
+  have hrel : fixRel ss s = .diag := by
     unfold fixRel
     simp only [hk, show (OpKind.indexed == OpKind.indexed || OpKind.indexed == OpKind.extIndirect) = true from rfl]
     have hshape := hadd
@@ -210,17 +198,10 @@ theorem fixOne_selfMinus_internal {ss : List Stmt} {k a : Nat} {s : Stmt}
     · rename_i l i m md heq
       rw [heq]
       dsimp only
-      rw [← heq, addrOffset_selfMinus hadd ha, hz]
-      rfl
+      rw [← heq, addrOffset_selfMinus hadd]
     · cases hshape
   unfold fixStep3
-  rw [if_pos hn, hrel, ha]
-  dsimp only
-  have hj : pcrJump s (k - a) a > 65535 := by
-    unfold pcrJump
-    simp only [hhint, show ¬ ((2 : Nat) = 4) by decide, if_false]
-    omega
-  rw [numericOfInt_big hj]
+  rw [if_pos hn, hrel]
 
 /-! ### the three kinds of line of the witness, stage by stage (closed computations, checked by the kernel) -/
 
@@ -329,10 +310,11 @@ theorem huge_pcr (n : Nat) (hn : n = 70000) :
   simp only [Bool.false_eq_true, if_false, hlen, hpass]
   exact pcrLoop_allFixed hall3
 
-/-- **C13, finding**: 70000 times ` ORG 0`, then `FAR LEAX X-FAR,PCR`, then `X EQU 1,2`: an internal error
-(ValueTypeError out of `fix_addresses`), whatever the host files are -/
-theorem huge_internal (fs : Files) (n : Nat) (hn : n = 70000) :
-    assemble fs (List.replicate n hugeOrg ++ [hugeFar, hugeX]) = .internal := by
+/-- **C13, REPAIRED finding**: 70000 times ` ORG 0`, then `FAR LEAX X-FAR,PCR`, then `X EQU 1,2` used to end in
+an internal error (ValueTypeError out of `fix_addresses`); `calculate_address_offset` now reports `X-FAR` as an
+unresolved expression, so the program ends in a diagnostic, whatever the host files are -/
+theorem huge_diag (fs : Files) (n : Nat) (hn : n = 70000) :
+    assemble fs (List.replicate n hugeOrg ++ [hugeFar, hugeX]) = .diag := by
   obtain ⟨g1, g2, g3, g4⟩ := huge_facts0
   obtain ⟨f1, f2, f3, f4, f5, f6, f7, f8, f9, f10⟩ := huge_facts2
   obtain ⟨k1, k2, k3, k4, k5, k6, k7, k8, k9, k10⟩ := huge_facts4
@@ -363,12 +345,9 @@ theorem huge_internal (fs : Files) (n : Nat) (hn : n = 70000) :
     fixOne_plain k1 (by intro h; rw [h] at k2; cases k2)
       (by cases hv : org2.operand.value <;> rw [hv] at k2 <;> first | rfl | cases k2)
       (by cases hv : org2.operand.value <;> rw [hv] at k2 <;> first | rfl | cases k2) k3 _ j
-  have haddr : addrIntOf (List.replicate n org2 ++ [far4, x4]) n = some 0 := by
-    unfold addrIntOf addrOf
-    rw [huge_getElem_n]; exact k8
-  have hfar : fixOne (List.replicate n org2 ++ [far4, x4]) n far4 = .internal :=
-    fixOne_selfMinus_internal k4 k5 k6 (by rw [hn]; exact k7) haddr k9 (by omega) (by rw [k10, hn]; decide)
-  have h5 : fixAll (List.replicate n org2 ++ [far4, x4]) 0 (List.replicate n org2 ++ [far4, x4]) = .internal := by
+  have hfar : fixOne (List.replicate n org2 ++ [far4, x4]) n far4 = .diag :=
+    fixOne_selfMinus_diag k4 k5 k6 (by rw [hn]; exact k7)
+  have h5 : fixAll (List.replicate n org2 ++ [far4, x4]) 0 (List.replicate n org2 ++ [far4, x4]) = .diag := by
     rw [fixAll_replicate hplain, Nat.zero_add, fixAll, hfar]
   rw [h5]
 
